@@ -61,6 +61,7 @@ type Verifier struct {
 	inlineNames      map[string]bool
 	snapObjs         map[string]*Object
 	allowPanic       bool
+	allowIndexPanic  bool // "option index-panics-allowed": index-out-of-range panics are outside the contract
 	opaqueGlobals    map[*ssa.Global]*Object
 	initLike         bool
 	globalArrLen     map[*Object]int64
@@ -753,6 +754,9 @@ func (fr *Frame) applyAnnot(st *State, a *Annot, label string, assert, assumeAft
 			g := se.evalBool(inv.E)
 			fr.oblige(st, label+":"+inv.Name, g, inv.E.Src)
 		}
+	}
+	if a.Stop && assert {
+		unsupPath()
 	}
 	if assumeAfter {
 		if assert {
